@@ -44,7 +44,7 @@ func statChanges(before, after run.Snapshot, paths []string) []mon.Problem {
 func c02(args []string) {
 	c := chk.New("C02", "exploration", args)
 	c.Build(false)
-	c.Rule("[reserved-looking names] outputs named <another output>.fifo and log/*.log through a complete run and twelve re-runs; [old modification times] in every second complete-run / re-run history the tools set the modification time of their outputs to the year 2001; [changed wrapper] complete run, then the same workflow with another Prepend (different command lines, same output paths): nothing runs, nothing changes; [gathered files] a task with a joined in-port whose output exists while parts of it are computed in the same run (file placed by the user; one part deleted after a complete run): not executed, file untouched; [interrupted runs] the run is killed inside a task's finalization (hook points after a declared output was renamed, temp directory still there) and re-run in place without cleanup: outputs already at their final paths keep inode/mtime/bytes and no command of their tasks runs; [links and pass-through] histories: complete run, an intermediate output that has a consumer is moved away and linked back (relative and absolute link), run again twice: no command runs, no file appears, every entry keeps inode/mtime/bytes; a process whose out-port path is its input path ({i:in}), file there before the first run: its command never runs and the file is never touched. generated non-streaming graphs of command / Go-function processes and sources; for each graph subsets of its tasks (all subsets when <= 5 tasks, else random ones) get all their outputs pre-placed (bytes of an earlier complete run incl. audit files / arbitrary user bytes / empty files), and the history 'complete run, run again in place' (also: 4-16 independent chains that end in the sink and fan into one merging process, also a process whose out-port is declared through SetOut only; chains / two-output tasks / diamonds with outputs in nested, parent-relative and absolute directories, re-run completely and after deleting the last process's outputs; 4-16 independent chains re-run 25-60 times in place as separate processes and 60-150 times inside one process, so that every process finishes at the same moment); oracle = no start event of a skipped task, (inode, size, mtime_ns, sha256) of every pre-existing output unchanged, downstream tasks executed exactly once on the pre-existing bytes (reference evaluation), re-run executes nothing. distinct_nontrivial = distinct (graph shape, subset, content kind) with >= 1 skipped and >= 1 executed task, plus re-run histories")
+	c.Rule("[partial re-runs] complete run, an upstream intermediate removed, RunTo / RunToRegex a process further down whose own outputs exist: only the removed file's task runs; [reserved-looking names] outputs named <another output>.fifo, log/*.log and prov/<name>.audit.json through a complete run and twelve re-runs; [old modification times] in every second complete-run / re-run history the tools set the modification time of their outputs to the year 2001; [changed wrapper] complete run, then the same workflow with another Prepend (different command lines, same output paths): nothing runs, nothing changes; [gathered files] a task with a joined in-port whose output exists while parts of it are computed in the same run (file placed by the user; one part deleted after a complete run): not executed, file untouched; [interrupted runs] the run is killed inside a task's finalization (hook points after a declared output was renamed, temp directory still there) and re-run in place without cleanup: outputs already at their final paths keep inode/mtime/bytes and no command of their tasks runs; [links and pass-through] histories: complete run, an intermediate output that has a consumer is moved away and linked back (relative and absolute link), run again twice: no command runs, no file appears, every entry keeps inode/mtime/bytes; a process whose out-port path is its input path ({i:in}), file there before the first run: its command never runs and the file is never touched. generated non-streaming graphs of command / Go-function processes and sources; for each graph subsets of its tasks (all subsets when <= 5 tasks, else random ones) get all their outputs pre-placed (bytes of an earlier complete run incl. audit files / arbitrary user bytes / empty files), and the history 'complete run, run again in place' (also: 4-16 independent chains that end in the sink and fan into one merging process, also a process whose out-port is declared through SetOut only; chains / two-output tasks / diamonds with outputs in nested, parent-relative and absolute directories, re-run completely and after deleting the last process's outputs; 4-16 independent chains re-run 25-60 times in place as separate processes and 60-150 times inside one process, so that every process finishes at the same moment); oracle = no start event of a skipped task, (inode, size, mtime_ns, sha256) of every pre-existing output unchanged, downstream tasks executed exactly once on the pre-existing bytes (reference evaluation), re-run executes nothing. distinct_nontrivial = distinct (graph shape, subset, content kind) with >= 1 skipped and >= 1 executed task, plus re-run histories")
 	c.Assume("subsets are subsets of tasks (all outputs of a task present), as the property quantifies; partial presence is C03's subject", ".audit.json files, log/ and atime are not judged")
 	rng := c.Rand("c02")
 	ngraphs := c.Pick(14, 120)
@@ -348,6 +348,7 @@ func c02(args []string) {
 	c02joined(c)
 	c02changedWrapper(c)
 	c02reservedNames(c)
+	c02runToHistory(c)
 	c.Finish()
 }
 
@@ -1025,6 +1026,9 @@ func c02reservedNames(c *chk.Ctx) {
 			&spec.Proc{Name: "B", Kind: []string{spec.KCmd, spec.KGoFunc}[i%2], Cmd: spec.BuildCmd("B", in, o1, nil, nil, nil), Outs: []*spec.Out{{Port: "out", Pattern: "{i:in}.fifo"}}},
 			&spec.Proc{Name: "C", Kind: spec.KCmd, Cmd: spec.BuildCmd("C", in, o1, nil, nil, nil), Outs: []*spec.Out{{Port: "out", Pattern: "log/{i:in|basename}.check.log"}}})
 		s.Conns = append(s.Conns, &spec.Conn{From: "src.out", To: "A.in"}, &spec.Conn{From: "A.out", To: "B.in"}, &spec.Conn{From: "A.out", To: "C.in"})
+		// an output that is itself named like an audit file and kept away from any data file (a provenance collection)
+		s.Procs = append(s.Procs, &spec.Proc{Name: "D", Kind: spec.KCmd, Cmd: spec.BuildCmd("D", in, o1, nil, nil, nil), Outs: []*spec.Out{{Port: "out", Pattern: "prov/{i:in|basename}.audit.json"}}})
+		s.Conns = append(s.Conns, &spec.Conn{From: "A.out", To: "D.in"})
 		// the log files of a dozen earlier runs of this workflow are still there
 		for k := 0; k < 12; k++ {
 			s.Sources[fmt.Sprintf("log/scipipe-202401%02d-101500-reserved.log", k+1)] = "AUDIT   old log\n"
@@ -1043,7 +1047,7 @@ func c02reservedNames(c *chk.Ctx) {
 		// the log directory is part of the working directory here (run.Snap leaves "log" out: stat by hand)
 		stat := func() map[string]string {
 			m := map[string]string{}
-			for _, f := range []string{"n0.txt.a", "n1.txt.a", "n0.txt.a.fifo", "n1.txt.a.fifo", "log/n0.txt.a.check.log", "log/n1.txt.a.check.log"} {
+			for _, f := range []string{"n0.txt.a", "n1.txt.a", "n0.txt.a.fifo", "n1.txt.a.fifo", "log/n0.txt.a.check.log", "log/n1.txt.a.check.log", "prov/n0.txt.a.audit.json", "prov/n1.txt.a.audit.json"} {
 				fi, err := os.Stat(filepath.Join(r1.Wd, f))
 				if err != nil {
 					m[f] = "missing"
@@ -1089,7 +1093,90 @@ func c02reservedNames(c *chk.Ctx) {
 			}
 			return
 		}
-		c.Count("outputs_stat_compared", 6*12)
+		c.Count("outputs_stat_compared", 8*12)
 		c.Nontrivial(fmt.Sprintf("reserved|%d", i))
+	})
+}
+
+// c02runToHistory: history "complete run; an upstream intermediate is removed; RunTo(a process further down whose own
+// outputs still exist)". The targets of a partial run are tasks like any other: their existing outputs are not
+// re-made because something upstream of them ran again.
+func c02runToHistory(c *chk.Ctx) {
+	run.Parallel(c.Pick(4, 12), func(i int) {
+		root := c.CaseDir()
+		defer c.Drop(root)
+		in, o1 := []spec.PortDecl{{Name: "in"}}, []spec.PortDecl{{Name: "out"}}
+		s := &spec.Spec{Name: "runtohistory", MaxTasks: 2, Sources: map[string]string{"h0.txt": "h0\n", "h1.txt": "h1\n"}}
+		s.Procs = append(s.Procs, &spec.Proc{Name: "src", Kind: spec.KFileSource, Files: []string{"h0.txt", "h1.txt"}},
+			&spec.Proc{Name: "prep", Kind: spec.KCmd, Cmd: spec.BuildCmd("prep", in, o1, nil, nil, nil)},
+			&spec.Proc{Name: "norm", Kind: []string{spec.KCmd, spec.KGoFunc}[i%2], Cmd: spec.BuildCmd("norm", in, o1, nil, nil, nil)},
+			&spec.Proc{Name: "stats", Kind: spec.KCmd, Cmd: spec.BuildCmd("stats", in, o1, nil, nil, nil)},
+			&spec.Proc{Name: "plot", Kind: spec.KCmd, Cmd: spec.BuildCmd("plot", in, o1, nil, nil, nil)})
+		s.Conns = append(s.Conns, &spec.Conn{From: "src.out", To: "prep.in"}, &spec.Conn{From: "prep.out", To: "norm.in"}, &spec.Conn{From: "norm.out", To: "stats.in"}, &spec.Conn{From: "stats.out", To: "plot.in"})
+		exp := evalRef(s, nil)
+		if exp.Err != "" {
+			c.Broken("reference cannot evaluate runtohistory: " + exp.Err)
+		}
+		cfg := Cfg{Buf: 3, Procs: 2, NoHooks: i%2 == 0}
+		target := []string{"stats", "plot", "norm", "stats"}[i%4]
+		mode := []string{"runto", "runtoregex"}[(i/4)%2]
+		removeOf := []string{"prep", "norm", "prep", "prep"}[i%4]
+		desc := map[string]interface{}{"spec": s, "cfg": cfg, "history": fmt.Sprintf("complete run; every output of %s removed; %s(%s)", removeOf, mode, target)}
+		r1 := execSpec(c, root, s, cfg, nil, false, 0)
+		if r1.Hang != "" && !strings.HasPrefix(r1.Hang, "deadlock") {
+			c.Inconclusive(r1.Hang)
+			return
+		}
+		if r1.Hang != "" || r1.Exit != 0 || !r1.Returned {
+			c.Violation("exit-nonzero", fmt.Sprintf("first run: exit %d %s: %s", r1.Exit, r1.Hang, tail(r1.Output(), 400)), desc)
+			return
+		}
+		removed := map[string]bool{}
+		var kept []string
+		for _, t := range exp.Tasks {
+			for _, path := range t.Outs {
+				if t.Proc == removeOf {
+					os.Remove(filepath.Join(r1.Wd, path))
+					os.Remove(filepath.Join(r1.Wd, path+".audit.json"))
+					removed[t.Key] = true
+				} else {
+					kept = append(kept, filepath.Clean(path))
+				}
+			}
+		}
+		if len(removed) == 0 || len(kept) == 0 {
+			c.Broken("runtohistory: nothing removed / nothing kept")
+		}
+		before := run.Snap(r1.Wd)
+		s2 := s.Clone()
+		s2.Run = spec.Run{Mode: mode, Targets: []string{target}}
+		if mode == "runtoregex" {
+			s2.Run.Targets = []string{"^" + target[:3] + ".*"}
+		}
+		r2 := execSpec(c, root, s2, cfg, nil, true, 1)
+		if r2.Hang != "" && !strings.HasPrefix(r2.Hang, "deadlock") {
+			c.Inconclusive(r2.Hang)
+			return
+		}
+		var rp []mon.Problem
+		if r2.Hang != "" || r2.Exit != 0 {
+			rp = append(rp, mon.Problem{Sig: "rerun-failed", Msg: fmt.Sprintf("partial re-run: exit %d %s: %s", r2.Exit, r2.Hang, tail(r2.Output(), 400))})
+		}
+		for _, e := range r2.Trace {
+			if e.Ev == "start" && !removed[e.Key] {
+				rp = append(rp, mon.Problem{Sig: "rerun-executed-command", Msg: fmt.Sprintf("the partial re-run executed %s although its output existed", e.Key)})
+			}
+		}
+		rp = append(rp, statChanges(before, run.Snap(r2.Wd), kept)...)
+		if len(rp) > 0 {
+			for _, sig := range sigSet(rp) {
+				desc["problems"] = mon.Summarize(rp, 10)
+				c.Violation(sig+"|partial-rerun", fmt.Sprintf("%v: %s", desc["history"], strings.Join(mon.Summarize(rp, 4), "\n  ")), desc)
+			}
+			return
+		}
+		c.Count("outputs_stat_compared", len(kept))
+		c.Count("partial_rerun_histories", 1)
+		c.Nontrivial(fmt.Sprintf("runtohistory|%s|%s|%s", removeOf, mode, target))
 	})
 }
